@@ -30,13 +30,16 @@ type Step struct {
 	Pick   int    `json:"pick,omitempty"`  // commit: which of the member's fetched-but-uncommitted messages (index from the oldest, modulo)
 	UpTo   bool   `json:"up_to,omitempty"` // commit: pass every fetched message up to the picked one (in order) instead of only the picked one
 	Mix    bool   `json:"mix,omitempty"`   // commit with UpTo: pass the messages with the topics alternating (A,B,A,B...) as far as possible
+	// TimeoutMs (commit): the call's context ends after this many ms (default 8 s): with a slow coordinator the caller gives
+	// up while its commit is still in flight.
+	TimeoutMs int `json:"timeout_ms,omitempty"`
 }
 
 // Fault applies to the n-th request of an API (0-based, counted per API).
 type Fault struct {
 	API  string `json:"api"` // findcoordinator join sync heartbeat commit offsetfetch leave fetch
 	Nth  int    `json:"nth"`
-	Kind string `json:"kind"` // code drop lost-ack
+	Kind string `json:"kind"` // code drop lost-ack slow (slow: answered correctly after Code milliseconds)
 	Code int16  `json:"code,omitempty"`
 }
 
@@ -55,6 +58,8 @@ type Case struct {
 	Steps            []Step  `json:"steps"`
 	Faults           []Fault `json:"faults"`
 	Quiesce          bool    `json:"quiesce"` // after the steps: stop faults, drain with the surviving members
+	// MaxBytes of the readers (0 = 1 MiB): small values make the broker end fetch responses inside a batch.
+	MaxBytes int `json:"max_bytes,omitempty"`
 }
 
 // AppEvent is one application-side observation.
@@ -154,6 +159,8 @@ func Run(c Case) *Result {
 					return &fakecluster.Action{DropBeforeApply: true, Tag: "fault-drop"}
 				case "lost-ack":
 					return &fakecluster.Action{DropResponse: true, Tag: "fault-lost-ack"}
+				case "slow":
+					return &fakecluster.Action{Delay: time.Duration(f.Code) * time.Millisecond, Tag: "fault-slow"}
 				default:
 					return &fakecluster.Action{ErrorCode: f.Code, Tag: fmt.Sprintf("fault-code-%d", f.Code)}
 				}
@@ -197,7 +204,11 @@ func Run(c Case) *Result {
 		if c.Balancer == "roundrobin" {
 			bal = kafka.RoundRobinGroupBalancer{}
 		}
-		cfg := kafka.ReaderConfig{Brokers: []string{"b1.fake:9092"}, GroupID: GroupID, Dialer: d, MinBytes: 1, MaxBytes: 1 << 20, MaxWait: 200 * time.Millisecond,
+		maxBytes := 1 << 20
+		if c.MaxBytes > 0 {
+			maxBytes = c.MaxBytes
+		}
+		cfg := kafka.ReaderConfig{Brokers: []string{"b1.fake:9092"}, GroupID: GroupID, Dialer: d, MinBytes: 1, MaxBytes: maxBytes, MaxWait: 200 * time.Millisecond,
 			QueueCapacity: c.QueueCapacity, ReadBackoffMin: time.Millisecond, ReadBackoffMax: 5 * time.Millisecond, MaxAttempts: 3,
 			HeartbeatInterval: 15 * time.Millisecond, SessionTimeout: 5 * time.Second, RebalanceTimeout: 150 * time.Millisecond, JoinGroupBackoff: 10 * time.Millisecond,
 			CommitInterval: time.Duration(c.CommitIntervalMs[i]) * time.Millisecond, GroupBalancers: []kafka.GroupBalancer{bal}, ReadLagInterval: -1,
@@ -265,6 +276,7 @@ func Run(c Case) *Result {
 		return true
 	}
 	mixNext := false
+	commitTimeout := 8 * time.Second
 	commit := func(m *member, pick int, upTo bool) {
 		if len(m.fetched) == 0 {
 			return
@@ -305,7 +317,7 @@ func Run(c Case) *Result {
 		for _, msg := range msgs {
 			record(AppEvent{Seq: before, Member: m.idx, Kind: "commit-call", Topic: msg.Topic, Partition: msg.Partition, Offset: msg.Offset, CallID: id, SeqBefore: before})
 		}
-		ctx, cancel := context.WithTimeout(context.Background(), 8*time.Second)
+		ctx, cancel := context.WithTimeout(context.Background(), commitTimeout)
 		err := m.r.CommitMessages(ctx, msgs...)
 		cancel()
 		for _, msg := range msgs {
@@ -371,7 +383,11 @@ func Run(c Case) *Result {
 		case "commit":
 			if alive {
 				mixNext = s.Mix
+				if s.TimeoutMs > 0 {
+					commitTimeout = time.Duration(s.TimeoutMs) * time.Millisecond
+				}
 				commit(m, s.Pick, s.UpTo)
+				commitTimeout = 8 * time.Second
 				mixNext = false
 			}
 		case "commitclose":
